@@ -3,7 +3,8 @@
    Model: Loader/Model.v (builder.go, parser.go, assert.go, condition.go, patternutil.go, status.go function by
    function; Panic = Go nil dereference / failed type assertion / slice out of range), Loader/Decode.v (the typing
    rules of yaml.v2 + mapstructure and the two checks of loader.go's decode).  The model follows the REPAIRED code
-   (/repo fix commits c2912bd F13a, 519d0a6 F13b, e67ca4a F13g, c021988 F13c, 089471d F13d, aac42fa F13e).
+   (/repo fix commits c2912bd F13a, 519d0a6 F13b, e67ca4a F13g, c021988 F13c, 089471d F13d, aac42fa F13e,
+   667fb54 F13f; the parameter fixes ff6cf28 / 0f1faec of C11 are followed too).
    Tie to the code: tools/props/C13.py (definition trees through the real LoadYAML / LoadMetadata /
    LoadWithoutEval / Load against the model on the same tree).
 
@@ -13,9 +14,8 @@
      - two hypotheses on libraries in the no-panic theorems: the cron parser panics only on a bare TZ= / CRON_TZ=
        prefix - PROVED for the Cron model (C09), see C13_load_no_panic_cron; a parameter value matched by the quoted
        alternative of the tokenizer's regular expression holds its two quotes (value[1:len-1] of fix 0f1faec);
-     - `build` taken alone still assumes `no_nil d`: that is exactly what decode guarantees (C13_decode_no_nil);
-     - F13f (executor config holding a mapping inside a list or NaN / Inf => status not serialisable) is NOT
-       repaired: `_refuted` witness + `_partial` theorem with the excluded class as premise. *)
+     - `build` taken alone still assumes `no_nil d`: that is exactly what decode guarantees (C13_decode_no_nil).
+   Every clause of the property is now a full statement; nothing is refuted. *)
 From Coq Require Import List ZArith String.
 Import ListNotations.
 From BD.Loader Require Import Str Model Decode Proofs DecodeProofs LoadProofs CronPlug Witness.
@@ -92,21 +92,15 @@ Theorem C13_conditions :
 Proof. exact evalConditions_np. Qed.
 Print Assumptions C13_conditions.
 
-(* ---- accepted => the status is serialisable: NOT repaired (F13f) ------------------------------------------------ *)
-(* Full statement (FALSE): build = Ok g -> json_ok g = true.  Excluded: executor config values holding a mapping
-   inside a list or a non-finite float. *)
-Theorem C13_serialisable_partial :
+(* ---- accepted => the status is serialisable; the agent's live status endpoint does not reach its nil-pointer path
+        (full statement since fix 667fb54) -------------------------------------------------------------------------- *)
+Theorem C13_serialisable :
   forall (cron : string -> cronv) (sig_ok : string -> bool) (tokenize : string -> list (string * string))
          (sh : string -> option string) (o : opts) (d : definition) (base : list string) (e : envt) (g : dag),
-  outcome (build cron sig_ok tokenize sh o d base e) = Ok g -> def_config_clean d = true ->
+  outcome (build cron sig_ok tokenize sh o d base e) = Ok g ->
   json_ok g = true /\ serve_status g = Ok tt.
-Proof. exact build_serialisable_partial. Qed.
-Print Assumptions C13_serialisable_partial.
-
-Theorem C13_serialisable_refuted_F13f :
-  (exists d g, outcome (buildW oYAML d [] []) = Ok g /\ json_ok g = false /\ serve_status g = Panic) /\
-  (exists d g, outcome (buildW oYAML d [] []) = Ok g /\ json_ok g = false /\ serve_status g = Panic).
-Proof. exact serialisable_refuted_F13f. Qed.
+Proof. exact build_serialisable. Qed.
+Print Assumptions C13_serialisable.
 
 (* ---- the witnesses of the defects that were repaired, as positive examples ------------------------------------------ *)
 (* before fix c2912bd the model answered Panic *)
@@ -145,10 +139,16 @@ Example C13_fixed_F13e :
                            ("steps", VList [m [("name", VStr "s1"); ("call", m [("function", VStr "f"); ("args", m [("x", VStr "")])])]])])) = Err.
 Proof. exact fixed_F13e. Qed.
 
+(* before fix 667fb54 both were accepted with a status that json.Marshal refuses (serve_status = Panic) *)
+Example C13_fixed_F13f :
+  (exists g, outcome (loadW oYAML tree_F13f_map) = Ok g /\ json_ok g = true /\ serve_status g = Ok tt) /\
+  outcome (loadW oYAML tree_F13f_nan) = Err.
+Proof. exact fixed_F13f. Qed.
+
 (* ---- non-vacuity: a definition with a schedule mapping, evaluated env, a function call, a sub-workflow, an executor
         with nested config, handlers and regular-expression preconditions is accepted ----------------------------------- *)
 Example C13_nonvacuous :
-  decode example_tree = Ok example_def /\ no_nil example_def = true /\ def_config_clean example_def = true /\
+  decode example_tree = Ok example_def /\ no_nil example_def = true /\
   (exists g, outcome (buildW oYAML example_def [] []) = Ok g /\ List.length (all_steps g) = 7 /\
              List.length (g_schedule g) = 2 /\ List.length (all_conditions g) = 2 /\ json_ok g = true) /\
   (exists g, outcome (buildW oLoad example_def [] []) = Ok g /\
